@@ -255,7 +255,9 @@ def run_variable(case, ctx):
         col = [case['flux'][a][f] for a in range(nap)]
         if nap == 1:
             lo = hi = col[0]
-        elif req > aps[-1]:
+        elif req > aps[-1] or (case['table_unit'] != 'au' and req >= aps[-1] * (1. - 1e-12)):
+            # beyond the table - or ON the largest knot of a table stored in another unit, whose conversion to AU may
+            # round it just below the request: the code then deliberately uses 0.999 x max
             a, b = om.interp_aperture(aps, col, 0.999 * aps[-1]), col[-1]
             lo, hi = min(a, b), max(a, b)
             nontrivial = True
